@@ -203,6 +203,9 @@ def install(I):
         items = I.iter_concrete(v)
         if items is not None:
             return ex.alloc(HList(items))
+        m = I.method_model(v, '__list__')
+        if m is not None:
+            return m(ex, [v], {})          # a modelled iterable says what list(it) is
         r = ex.alloc(HSymList(I.as_seq(v)))
         if isinstance(v, VRef) and isinstance(ex.heap[v.addr], HSymList):
             # list(x) is a shallow copy: the element objects are shared with x
